@@ -65,8 +65,8 @@ func ruleBlankFlagCarriedOver(w *World, r *Report) {
 		type pair struct {
 			x, y   ssa.Value
 			xv, yv ssa.Value // as written (before stripping), for the static types
-			at   ssa.Instruction
-			how  string
+			at     ssa.Instruction
+			how    string
 		}
 		var pairs []pair
 		type carry struct{ x, y ssa.Value }
